@@ -197,7 +197,10 @@ def classify(rec, lean, case, V, reserved):
             V.violation('ASTString(non-pretty):%s text re-parses to %d statements' % (df['what'], df['n']), dict(rp, rendered=df['text']), 'expected exactly one statement')
         else:
             cls = df.get('cls') or '?'
-            if cls == 'Constant.type_' and 'FLOAT_CONSTANT' in df['path'] and 'INTEGER_CONSTANT' in df['path']:
+            if df['what'] == 'transformation' and (df['path'].startswith('$: ') or re.match(r'\$\.(Persistent)?Assignment:left\.', df['path'])):
+                # the k-th item is not the k-th assignment at all (other result name / other assignment operator)
+                key = 'ast_to_sdmx:transformation k is not the k-th assignment of ast.children (result name or persistence differ)'
+            elif cls == 'Constant.type_' and 'FLOAT_CONSTANT' in df['path'] and 'INTEGER_CONSTANT' in df['path']:
                 key = 'ASTString._handle_literal:Number literal with integral value is rendered as an Integer literal'
             elif re.search(r'\d(\.\d+)?e[+-]\d\d', df.get('text', '')):
                 key = 'ASTString._handle_literal:Number literal is rendered in exponent notation (format g), which VTL does not read back'
